@@ -29,6 +29,7 @@ type mman struct {
 	at      string // artifactType as a referrers response must report it
 	ann     map[string]string
 	refs    []string // config+layers (image) or children (index)
+	refMT   []string // media type each child is listed under (index only, parallel to refs)
 	isIndex bool
 }
 
@@ -468,6 +469,7 @@ func buildIndex(mt string, children []mdesc, subj *mdesc, at string, ann map[str
 	m.Manifests = children
 	for _, c := range children {
 		mm.refs = append(mm.refs, c.Digest)
+		mm.refMT = append(mm.refMT, c.MediaType)
 	}
 	if subj != nil {
 		m.Subject = subj
